@@ -10,6 +10,7 @@ CONSTANTS
   MaxRules = 2
   MaxStatus = 2
   MaxRuns = 2
+  MaxReent = 0
   RulesInRun = TRUE
   Export = FALSE
   Variant = "asRequired"
